@@ -85,8 +85,9 @@ def topologies(ctx):
 def build_prog(idx, n, edges, r):
     classes = []
     for c in range(n):
-        flavour = r.choice(["dataclass", "dataclass", "namedtuple", "plain"])
-        fields = [["val", ["int"]]]
+        flavour = r.choice(["dataclass", "dataclass", "namedtuple", "plain", "typeddict"])
+        # `when` needs conversion in both directions: a level passed through raw shows in the marshalled form
+        fields = [["val", ["int"]], ["when", ["date"]]]
         defaults = []
         for j, (s, kind, d) in enumerate(edges):
             if s != c:
@@ -94,7 +95,7 @@ def build_prog(idx, n, edges, r):
             fn = f"e{j}"
             fields.append([fn, edge_ty(kind, d)])
             dv = wrap_val(kind, None)
-            if flavour == "namedtuple" and isinstance(dv, list) and dv[0] in ("l", "d"):
+            if flavour == "typeddict" or (flavour == "namedtuple" and isinstance(dv, list) and dv[0] in ("l", "d")):
                 continue  # required field
             defaults.append([fn, dv])
         dn = {k for k, _ in defaults}
@@ -115,13 +116,16 @@ def deep_value(prog, edges, cls, depth, path_edge=None):
         if fn == "val":
             out.append([fn, depth])
             continue
+        if fn == "when":
+            out.append([fn, ["date", 737000 + depth]])
+            continue
         j = int(fn[1:])
         s, kind, d = edges[j]
         if depth > 0 and mine and j == mine[0][0]:
             out.append([fn, wrap_val(kind, deep_value(prog, edges, d, depth - 1))])
         else:
             out.append([fn, wrap_val(kind, None)])
-    return ["o", cls, out]
+    return ["d", out] if c["kind"] == "typeddict" else ["o", cls, out]
 
 
 def root_variants(cls, v):
@@ -141,11 +145,43 @@ def alias_child(job):
     import typelib
     mod = types.ModuleType("vm_c07_alias")
     sys.modules["vm_c07_alias"] = mod
-    exec("from __future__ import annotations\nimport typing\ntype A = dict[str, A | int]\ntype L = list[L] | int\n"
-         "type O = dict[str, O] | None\n", mod.__dict__)
+    exec("from __future__ import annotations\nimport typing, datetime\ntype A = dict[str, A | int]\ntype L = list[L] | int\n"
+         "type O = dict[str, O] | None\n"
+         "type TD = list[TD] | datetime.date\ntype DD = dict[str, DD] | datetime.date\ntype ND = tuple[ND, ...] | datetime.date\n"
+         "type Rows = list[Cell] | None\ntype Cell = dict[str, Rows] | datetime.date\n"
+         "class Item(typing.TypedDict):\n    day: datetime.date\n    parts: list[Item]\n", mod.__dict__)
+    import datetime
     out = []
     for name, depth in job:
         t = getattr(mod, name)
+        if name in ("TD", "DD", "ND", "Rows", "Item"):
+            # leaves that need conversion: every level of the marshalled form must be plain, and equal to the expected wire
+            day, iso = datetime.date(2020, 1, 2), "2020-01-02"
+            if name == "Item":
+                val, wire = {"day": day, "parts": []}, {"day": iso, "parts": []}
+            else:
+                val, wire = (None, None) if name == "Rows" else (day, iso)
+            for i in range(depth // 2 if name == "Rows" else depth):      # one level of Rows = two container levels
+                if name == "TD":
+                    val, wire = [val, day], [wire, iso]
+                elif name == "DD":
+                    val, wire = {"k": val, "d": day}, {"k": wire, "d": iso}
+                elif name == "ND":
+                    val, wire = (val, day), [wire, iso]
+                elif name == "Rows":
+                    val, wire = [{"r": val}, day], [{"r": wire}, iso]       # Rows = list[Cell]; Cell = dict[str, Rows] | date
+                else:
+                    val, wire = {"day": day, "parts": [val]}, {"day": iso, "parts": [wire]}
+            try:
+                m_ = typelib.marshal(val, t=t)
+                why = core.plain_reason(m_)
+                back = typelib.unmarshal(t, wire)
+                ok = why is None and m_ == wire and back == val
+                out.append({"alias": name, "depth": depth, "ok": bool(ok),
+                            "got": (f"a level was marshalled raw ({why}): " if why else "") + repr(m_)[:120] + " / " + repr(back)[:80]})
+            except Exception as e:  # noqa: BLE001
+                out.append({"alias": name, "depth": depth, "ok": False, "got": f"{type(e).__name__}: {e}"[:160]})
+            continue
         if name == "A":
             wire = {}
             val = {}
@@ -176,8 +212,11 @@ def explore(ctx):
     res = Result()
     res.rule = RULE
     r = ctx.rng
-    D = 12 if ctx.tier == "quick" else 150
-    depths = [0, 1, 2, 3, D // 2, D] if ctx.tier == "quick" else [0, 1, 2, 5, 12, 40, 100, D]
+    # "below the interpreter's recursion limit": CPython 3.12 bounds C-level recursion (list(generator) -> routine -> ...) separately
+    # from sys.setrecursionlimit and it cannot be raised; the routines reach it between depth 100 and 150 for collection edges (and a
+    # RecursionError inside an Optional edge is turned into the union's ValueError), so the thorough tier stops at D = 100.
+    D = 12 if ctx.tier == "quick" else 100
+    depths = [0, 1, 2, 3, D // 2, D] if ctx.tier == "quick" else [0, 1, 2, 5, 12, 40, 70, D]
     jobs = []
     tops = topologies(ctx)
     if ctx.tier == "quick" and ctx.scale == 1.0 and len(tops) > 60:
@@ -195,6 +234,9 @@ def explore(ctx):
                 for ts, val in ([variants[0]] + [r.choice(variants[1:])]):
                     ops.append({"op": "rt", "ty": ts, "val": val, "depth": d})
         jobs.append({"prog": prog, "ops": ops, "top": [n, edges]})
+    # (the harness's own encoders recurse on the values: give the parent room)
+    import sys
+    sys.setrecursionlimit(max(sys.getrecursionlimit(), 30000))
     real, model = core.run_jobs(jobs, timeout=300)
     res.programs = len(jobs)
     for job, ro, mo in zip(jobs, real, model):
@@ -210,6 +252,11 @@ def explore(ctx):
             res.case(case, True)
             res.count(f"depth:{op['depth']}")
             inp = {"prog": job["prog"], "ty": op["ty"], "val": op["val"], **case}
+            if op["depth"] >= 100 and any(r_.get(w, {}).get("err") == "recursion" for w in ("mar", "um")):
+                # the property holds "below the interpreter's recursion limit": ~6-8 interpreter frames per level put depth >= 100
+                # near the default limit of 1000 for some edge kinds. (A RecursionError at a SMALL depth is reported.)
+                res.count("beyond-interpreter-recursion-limit")
+                continue
             for what in ("mar", "um"):
                 if what in r_ and what in m_:
                     if core.compare(res, what, inp, r_[what], m_[what]) is not True:
@@ -224,7 +271,7 @@ def explore(ctx):
                 res.count("oracle:roundtrip-every-level")
     # recursive aliases
     core.import_typelib()
-    ajobs = [[(name, d) for d in depths] for name in ("A", "L", "O")]
+    ajobs = [[(name, d) for d in depths] for name in ("A", "L", "O", "TD", "DD", "ND", "Rows", "Item")]
     for out in iso.map_isolated(alias_child, ajobs, timeout=120):
         if isinstance(out, dict) and "crash" in out:
             res.failures.append({"what": f"recursive alias: {out['crash']}", "input": {"alias": "?"}})
